@@ -74,8 +74,9 @@ func (c *formatterClass_) MakeWithMaximum(maximum int) FormatterLike {
 
 type formatter_ struct {
 	class_   FormatterClassLike
-	depth_   int
+	depth_   int // The current level of indentation.
 	maximum_ int
+	nesting_ int // The number of collections around the current value.
 	result_  sts.Builder
 }
 
@@ -99,6 +100,7 @@ func (v *formatter_) FormatValue(value any) (source string) {
 	// Start from a clean state even if an earlier call was aborted by a panic.
 	v.result_.Reset()
 	v.depth_ = 0
+	v.nesting_ = 0
 	v.formatValue(value)
 	v.appendNewline()
 	source = v.getResult()
@@ -124,7 +126,7 @@ func (v *formatter_) formatArray(array any) {
 	var reflected = ref.ValueOf(array)
 	var size = reflected.Len()
 	switch {
-	case v.depth_ == v.maximum_:
+	case v.nesting_ > v.maximum_:
 		// Truncate the recursion.
 		v.appendString("...")
 	case size == 0:
@@ -157,7 +159,7 @@ func (v *formatter_) formatAssociations(associations any) {
 	var iterator = sequence.MethodByName("GetIterator").Call([]ref.Value{})[0]
 	var size = sequence.MethodByName("GetSize").Call([]ref.Value{})[0].Interface()
 	switch {
-	case v.depth_ == v.maximum_:
+	case v.nesting_ > v.maximum_:
 		// Truncate the recursion.
 		v.appendString("...")
 	case size == 0:
@@ -184,7 +186,11 @@ func (v *formatter_) formatBoolean(boolean bool) {
 }
 
 func (v *formatter_) formatCollection(collection any) {
+	// Every collection counts towards the maximum depth, including the ones
+	// with a single item which are formatted inline without indentation.
+	v.nesting_++
 	v.formatSequence(collection)
+	v.nesting_--
 	v.formatContext(collection)
 }
 
@@ -303,7 +309,7 @@ func (v *formatter_) formatMap(map_ any) {
 	var size = reflected.Len()
 	var keys = reflected.MapKeys()
 	switch {
-	case v.depth_ == v.maximum_:
+	case v.nesting_ > v.maximum_:
 		// Truncate the recursion.
 		v.appendString("...")
 	case size == 0:
@@ -420,7 +426,7 @@ func (v *formatter_) formatValues(values any) {
 	var iterator = sequence.MethodByName("GetIterator").Call([]ref.Value{})[0]
 	var size = sequence.MethodByName("GetSize").Call([]ref.Value{})[0].Interface()
 	switch {
-	case v.depth_ == v.maximum_:
+	case v.nesting_ > v.maximum_:
 		// Truncate the recursion.
 		v.appendString("...")
 	case size == 0:
